@@ -509,12 +509,12 @@ func checkC13(r *Run) {
 func c13Registry(r *Run, ev *sizeEval) {
 	info := ev.info
 	reg := r.mustFunc("r4", "p9", "registry.register")
-	cs := r.mustFunc("r4", "p9", "calculateSize")
-	if reg == nil || cs == nil {
+	if reg == nil {
 		return
 	}
-	// largestFixedSize after register = max(before, calculateSize(fn())), evaluated symbolically
-	// (if / min-max builtins / early assignment are all fine).
+	// largestFixedSize after register = max(before, size of fn()), evaluated symbolically
+	// (if / min-max builtins / early assignment are all fine).  The size is measured by a
+	// private helper applied to fn() (calculateSize) or in register itself, into a local.
 	res := newResolver(r.L, info, reg.Decl)
 	recvName, fnName := "", ""
 	if reg.Decl.Recv != nil && len(reg.Decl.Recv.List[0].Names) == 1 {
@@ -527,10 +527,50 @@ func c13Registry(r *Run, ev *sizeEval) {
 			}
 		}
 	}
-	okMax, whyMax := maxHoldsAtEnd(r.L, res, reg, recvName+".largestFixedSize", "calculateSize("+fnName+"())")
+	type measure struct {
+		expr string         // what the field is compared with
+		body *ast.BlockStmt // where the measuring happens
+		name string
+		pos  token.Pos
+	}
+	var cands []measure
+	ast.Inspect(reg.Decl.Body, func(n ast.Node) bool {
+		switch v := n.(type) {
+		case *ast.CallExpr:
+			// h(fn())
+			if len(v.Args) == 1 {
+				if inner, ok := unparen(v.Args[0]).(*ast.CallExpr); ok && len(inner.Args) == 0 && r.L.str(inner.Fun) == fnName {
+					if h := r.L.FuncOf(callee(info, v)); h != nil && h.Decl.Body != nil {
+						cands = append(cands, measure{expr: res.str(v), body: h.Decl.Body, name: h.Decl.Name.Name, pos: h.Decl.Pos()})
+					}
+				}
+			}
+		case *ast.Ident:
+			// a local of register that holds the size
+			if o, ok := info.Defs[v].(*types.Var); ok && o != nil {
+				if b, isB := o.Type().Underlying().(*types.Basic); isB && b.Info()&types.IsInteger != 0 && res.str(v) == res.nameOf(o) {
+					cands = append(cands, measure{expr: res.nameOf(o), body: reg.Decl.Body, name: "register (local " + o.Name() + ")", pos: v.Pos()})
+				}
+			}
+		}
+		return true
+	})
+	okMax, whyMax := false, "no measured size of "+fnName+"() found in register"
+	var used *measure
+	for i := range cands {
+		if ok, why := maxHoldsAtEnd(r.L, res, reg, recvName+".largestFixedSize", cands[i].expr); ok {
+			okMax, whyMax, used = true, why, &cands[i]
+			break
+		} else if used == nil {
+			whyMax = why
+		}
+	}
 	r.check(okMax, "r4", "register keeps the maximum fixed size", reg.Decl.Pos(), whyMax, "register no longer maintains largestFixedSize as the maximum over all registered types: "+whyMax)
+	if used == nil {
+		return
+	}
 	hasFixed, hasEncode := false, false
-	ast.Inspect(cs.Decl.Body, func(n ast.Node) bool {
+	ast.Inspect(used.body, func(n ast.Node) bool {
 		if c, ok := n.(*ast.CallExpr); ok {
 			k := calleeKey(info, c)
 			if strings.HasSuffix(k, ".FixedSize") {
@@ -542,7 +582,7 @@ func c13Registry(r *Run, ev *sizeEval) {
 		}
 		return true
 	})
-	r.check(hasFixed && hasEncode, "r4", "calculateSize", cs.Decl.Pos(), "FixedSize() for payloaders, encoded length otherwise", "calculateSize no longer measures FixedSize()/encoded length")
+	r.check(hasFixed && hasEncode, "r4", "the size of a message type is measured", used.pos, "FixedSize() for payloaders, encoded length otherwise (in "+used.name+")", used.name+" no longer measures FixedSize()/encoded length")
 }
 
 func c13Client(r *Run, m *ServerModel, ev *sizeEval, needW, needR int64) {
